@@ -7,7 +7,8 @@ import os
 import vlib
 
 PROOFS = ["MgProof.C13.Lemmas", "MgProof.C13.LemmasTrace", "MgProof.C13.LemmasPoll", "MgProof.C13.LemmasSelect",
-          "MgProof.C13.LemmasEpoll", "MgProof.C13.Props"]
+          "MgProof.C13.LemmasEpoll", "MgProof.C13.LemmasReady", "MgProof.C13.LemmasEpollReady",
+          "MgProof.C13.Props"]
 GREP = ["MgModel/C13", "MgProof/C13", "Drv/C13.lean"]
 REPO_SRCS = ["muggle/c/event/event_loop.c", "muggle/c/event/internal/event_loop_epoll.c",
              "muggle/c/event/internal/event_loop_poll.c",
